@@ -106,6 +106,7 @@ const (
 	vpWaitReadBeforeBlock
 	vpWaitReadWoke
 	vpWaitFlushBeforeBlock
+	vpOnHupBeforeCloseLock
 	vpCount
 )
 
@@ -209,6 +210,7 @@ var verifPointNames = [...]string{
 	vpWaitReadBeforeBlock:     "WaitReadBeforeBlock",
 	vpWaitReadWoke:            "WaitReadWoke",
 	vpWaitFlushBeforeBlock:    "WaitFlushBeforeBlock",
+	vpOnHupBeforeCloseLock:    "OnHupBeforeCloseLock",
 }
 
 func verifB2I(b bool) int {
